@@ -1,4 +1,4 @@
-"""C20 -- completion proposals (clauses R20.1-R20.14)."""
+"""C20 -- completion proposals (clauses R20.1-R20.15)."""
 from __future__ import annotations
 
 import ast
@@ -18,6 +18,7 @@ EXPLANATION = (
     ' R20.9: the try-block repair classifies comment lines on the stripped line.  R20.10: the offset ledger of the repair books exactly the length change of every edit of the line list, before the old line is gone, and shifts an offset by the lines strictly before its own.'
     ' R20.11 (=R01.4): a call keyword is answered in the keyword branch; a word that only looks like one still reaches the ordinary name evaluation.'
 )
+EXPLANATION += ' R20.15: the returned prefix is cut from the start offset that is returned.'
 EXPLANATION += ' R20.13: identifier characters.  R20.14: an object expression is split off only behind a character found to be a dot.'
 ASSUMPTIONS = ["proposal name is the first constructor argument"]
 
@@ -387,6 +388,7 @@ def check(ctx, res) -> None:
     from .common import identifier_char_rule
 
     _dot_is_looked_at_rule(ctx, res)
+    _prefix_matches_its_start_rule(ctx, res)
     identifier_char_rule(ctx, res, "R20.13", ("rope.contrib.codeassist", "rope.contrib.fixsyntax", "rope.contrib.findit", "rope.base.worder"))
 
 
@@ -423,3 +425,52 @@ def _dot_is_looked_at_rule(ctx, res) -> None:
                 "('fo', '') -- completion lists the attributes of another variable `fo`, or nothing -- and after `len(fo) ` or `int(foo)` code assist raises "
                 "BadIdentifierError", function=f.qualname)
     res.floor("R20.14", "splits with an object expression", n, 1)
+
+
+def _prefix_matches_its_start_rule(ctx, res) -> None:
+    """R20.15: the split before the cursor returns (expression, typed prefix, offset where the prefix starts); completion
+    filters the names with the prefix and replaces the text from that offset.  The two must describe the same stretch:
+    the prefix is `raw[<start>:offset]` for the very value of <start> that is returned (or "" together with `offset`).  A
+    prefix sliced BEFORE the start was last assigned belongs to another stretch: after `obj. ` the blank is taken for the
+    typed prefix and no attribute is proposed."""
+    from . import common as _common
+    idx = ctx.idx
+    f = idx.need_func("rope.base.worder._RealFinder.get_splitted_primary_before")
+    node = _common.inlined(idx, f)
+    cfg = CFG(node)
+    n = 0
+    for nd in cfg.nodes:
+        st = nd.ast
+        if nd.kind != "stmt" or not isinstance(st, ast.Return) or not isinstance(st.value, ast.Tuple) or len(st.value.elts) != 3:
+            continue
+        prefix, start = st.value.elts[1], st.value.elts[2]
+        if isinstance(prefix, ast.Constant):
+            continue
+        n += 1
+        bad = None
+        # where is the prefix computed?
+        def_nodes = [nd]
+        sl = prefix
+        if isinstance(prefix, ast.Name):
+            defs = [d for d in cfg.nodes if d.kind == "stmt" and isinstance(d.ast, ast.Assign) and any(isinstance(t, ast.Name) and t.id == prefix.id for t in d.ast.targets)]
+            if len(defs) != 1:
+                res.undecided("R20.15", f"get_splitted_primary_before|prefix-matches-start#{n}", f"{f.unit.rel}:{st.lineno}", "the prefix is bound more than once")
+                continue
+            def_nodes, sl = defs, defs[0].ast.value
+        if not (isinstance(sl, ast.Subscript) and isinstance(sl.slice, ast.Slice) and sl.slice.lower is not None):
+            res.undecided("R20.15", f"get_splitted_primary_before|prefix-matches-start#{n}", f"{f.unit.rel}:{st.lineno}", "the prefix is not a slice from a start offset")
+            continue
+        low = sl.slice.lower
+        if norm(low) != norm(start):
+            bad = f"the prefix is cut from `{ast.unparse(low)}` but `{ast.unparse(start)}` is returned as its start"
+        elif isinstance(low, ast.Name) and def_nodes[0] is not nd:
+            writes = [w for w in cfg.nodes if w.kind == "stmt" and isinstance(w.ast, (ast.Assign, ast.AugAssign)) and w is not def_nodes[0]
+                      and any(isinstance(t, ast.Name) and t.id == low.id for t in (w.ast.targets if isinstance(w.ast, ast.Assign) else [w.ast.target]))]
+            for w in writes:
+                if cfg.exists_path(def_nodes[0].id, w.id) and cfg.exists_path(w.id, nd.id):
+                    bad = f"the prefix `{ast.unparse(def_nodes[0].ast)[:50]}` is cut before `{ast.unparse(w.ast)}` changes the start that is returned"
+        res.add("R20.15", f"get_splitted_primary_before|prefix-matches-start#{n}", bad is None, f"{f.unit.rel}:{st.lineno}",
+                "the returned prefix is the text from the returned start to the cursor" if bad is None else
+                f"{bad}: with the cursor after `obj. ` the split is ('obj', ' ', offset) -- completion filters the attributes with the prefix ' ' and proposes nothing, "
+                "although every attribute is visible there", function=f.qualname)
+    res.floor("R20.15", "splits with a computed prefix", n, 1)
